@@ -228,7 +228,7 @@ def ci_cases():
       out.append(Case('classic-%s-%s' % (yn, pn), ci_params(ys, Str('classic'), ps, NoneT())))
       for tn, ts in (('anysize', NoneT()), ('size', Int(1))):
         out.append(Case('tuples-%s-%s-%s' % (yn, pn, tn), ci_params(ys, Str('tuples'), ps, ts)))
-    out.append(Case('unknown-type-%s' % yn, ci_params(ys, Str('something else'), NoneT(), NoneT())))
+    out.append(Case('unknown-type-%s' % yn, ci_params(ys, Str('something else'), NoneT(), NoneT()), never_returns=True))
   return out
 
 
